@@ -22,7 +22,7 @@
 (***************************************************************************)
 EXTENDS Naturals, Sequences, FiniteSets, TLC
 
-CONSTANTS Streams,      \* stream ids that queue frames (0 is reserved for SETUP)
+CONSTANTS Streams,      \* stream ids that queue frames (0: connection-level frames - KEEPALIVE, LEASE - which never fragment; SETUP is apart)
           MaxFrames,    \* frames queued in total
           FragCounts,   \* possible numbers of fragments of a queued frame (1 = fits / not fragmentable)
           CycleMode,    \* "own_stream_last" | "naive"
@@ -48,6 +48,7 @@ Init == /\ q = <<>> /\ wire = <<>> /\ rpos = 0
 (* the application (or a stream handler) queues a frame for stream s that will take k fragments *)
 Enq(s, k) ==
     /\ nextFid <= MaxFrames
+    /\ (s = 0 => k = 1)
     /\ q' = Append(q, [sid |-> s, fid |-> nextFid, total |-> k, sent |-> 0])
     /\ enq' = Append(enq, <<s, nextFid, k>>)
     /\ nextFid' = nextFid + 1
@@ -105,7 +106,7 @@ Expected(s, log) ==
     ELSE LET e == Head(log)
          IN (IF e[1] = s THEN [i \in 1..e[3] |-> <<e[2], i>>] ELSE <<>>) \o Expected(s, Tail(log))
 
-WireOf(s) == LET w == SelectSeq(wire, LAMBDA f : f.sid = s) IN [i \in 1..Len(w) |-> <<w[i].fid, w[i].idx>>]
+WireOf(s) == LET w == SelectSeq(wire, LAMBDA f : f.sid = s /\ f.fid # 0) IN [i \in 1..Len(w) |-> <<w[i].fid, w[i].idx>>]     \* (fid 0 = SETUP)
 
 IsPrefixOf(a, b) == Len(a) <= Len(b) /\ \A i \in 1..Len(a) : a[i] = b[i]
 
@@ -120,12 +121,15 @@ WholeFrame(fr) ==
 ReassembledExact == \A i \in 1..Len(out) : out[i][1].sid # 0 => WholeFrame(out[i])
 
 (* C01: per stream, frames come out in queueing order, each once *)
-OutFids(s) == LET o == SelectSeq(out, LAMBDA fr : fr[1].sid = s) IN [i \in 1..Len(o) |-> o[i][1].fid]
+OutFids(s) == LET o == SelectSeq(out, LAMBDA fr : fr[1].sid = s /\ fr[1].fid # 0) IN [i \in 1..Len(o) |-> o[i][1].fid]
 EnqFids(s) == LET l == SelectSeq(enq, LAMBDA e : e[1] = s) IN [i \in 1..Len(l) |-> l[i][2]]
 DeliveredInOrderOnce == \A s \in Streams : IsPrefixOf(OutFids(s), EnqFids(s))
 
+(* C15 / C14: a frame is written once - the rotation never duplicates what it moves (connection-level frames included) *)
+WrittenOnce == \A i, j \in 1..Len(wire) : (i # j /\ wire[i].fid = wire[j].fid /\ wire[i].sid = wire[j].sid) => wire[i].idx # wire[j].idx
+
 (* C16/C08: whatever was queued while connecting, SETUP is the first frame on the wire *)
-SetupFirst == (WithSetup /\ wire # <<>>) => wire[1].sid = 0
+SetupFirst == (WithSetup /\ wire # <<>>) => wire[1].sid = 0 /\ wire[1].fid = 0
 
 (* between two fragments of one frame only fragments of OTHER streams appear (the allowed interleaving) *)
 InterleaveOnlyOtherStreams ==
